@@ -137,22 +137,22 @@ def run(ctx):
     ctx.cov["cases_generated"] = {"path": len(paths), "roundtrip": len(rts), "decrypt": len(decs)}
     outside = [c for c in paths if not c["expect"]["inside"]]
     inside = [c for c in paths if c["expect"]["inside"]]
-    nontriv = set()
-    for c in paths:
-        n = c["case"]["name"]
-        if any(s in ("..", ".", "", "LONG") or s in ("<x", "q?") for s in n):
-            nontriv.add(json.dumps(c["case"]))
-    for c in rts:
-        if any(v != "plain" for v in c["case"]["cfg"].values()) or c["case"]["other"] != "plain":
-            nontriv.add(json.dumps(c["case"], sort_keys=True))
-    for c in decs:
-        nontriv.add(json.dumps(c["case"], sort_keys=True))
     if not thorough:
         # the names the resolution refuses as traversal, and the ones that leave the root, are always replayed
         must = [c for c in inside if c["expect"]["loc"]["why"] == "traversal"]
         rest = [c for c in inside if c["expect"]["loc"]["why"] != "traversal"]
         inside = must + rng.sample(rest, min(len(rest), 450))
         rts = rng.sample(rts, min(len(rts), 260))
+    nontriv = set()
+    for c in outside + inside:
+        n = c["case"]["name"]
+        if any(s in ("..", ".", "", "LONG", "<x", "q?") for s in n):
+            nontriv.add(json.dumps(c["case"], sort_keys=True))
+    for c in rts:
+        if any(v != "plain" for v in c["case"]["cfg"].values()) or c["case"]["other"] != "plain":
+            nontriv.add(json.dumps(c["case"], sort_keys=True))
+    for c in decs:
+        nontriv.add(json.dumps(c["case"], sort_keys=True))
     cases = [copy.deepcopy(c["case"]) for c in K.stored_finding_cases("C33", "case")] + outside + inside + rts + decs
     ctx.sample(outside[0] if outside else inside[0])
     ctx.sample(rts[0])
@@ -160,7 +160,7 @@ def run(ctx):
     ctx.cov["distinct_nontrivial"] = len(nontriv)
     ctx.cov["rule"] = ("cases = (coordinator root class, namespace name as segment sequence) / (key class, field class assignment, "
                        "unprotected field class) / ciphertext class, enumerated by TLC; non-trivial = a name with a special segment "
-                       "('..', '.', empty, over-long, forbidden character), a configuration with a non-plain field, or any ciphertext class")
+                       "('..', '.', empty, over-long, forbidden character), a configuration with a non-plain field, or any ciphertext class; counted over the replayed cases")
     replay(ctx, cases, "enumerated cases")
 
     # 3. binding self-test: a corrupted expected location must be noticed
